@@ -12,7 +12,8 @@ import time
 from concurrent.futures import ThreadPoolExecutor
 
 HOME = os.environ.get('VERIF_HOME') or os.path.dirname(os.path.dirname(os.path.abspath(__file__)))
-REPO = '/repo'
+REPO = os.environ.get('VERIF_REPO') or '/repo'
+OUT = os.environ.get('VERIF_OUT') or HOME     # where evidence/ and replays/ are written (seedcheck redirects it)
 PY = os.path.join(HOME, '.venv', 'bin', 'python')
 CROSSHAIR = os.path.join(HOME, '.venv', 'bin', 'crosshair')
 EXIT_OK, EXIT_VIOLATION, EXIT_HARNESS = 0, 1, 3
@@ -295,8 +296,8 @@ def run_ob_inprocess(ob):
 
 def do_replay(prop, ob, inputs, tier='thorough'):
     """Run ob.replay in a plain process (no CrossHair tracing); returns (reproduces, what)."""
-    os.makedirs(os.path.join(HOME, 'replays'), exist_ok=True)
-    path = os.path.join(HOME, 'replays', '%s_%s.json' % (prop, re.sub(r'[^A-Za-z0-9_.-]', '_', ob.name)))
+    os.makedirs(os.path.join(OUT, 'replays'), exist_ok=True)
+    path = os.path.join(OUT, 'replays', '%s_%s.json' % (prop, re.sub(r'[^A-Za-z0-9_.-]', '_', ob.name)))
     with open(path, 'w') as f:
         json.dump(dict(property=prop, obligation=ob.name, tier=tier, inputs=_enc_bytes(inputs)), f, indent=1, default=repr)
     p = subprocess.run([PY, '-B', os.path.join(HOME, 'engine', 'main.py'), prop, '--replay', path],
@@ -479,8 +480,8 @@ def run_check(prop, module, tier, seed):
             known_findings=known_report, exhaustive=False),
         assumptions=meta.get('assumptions', []) + ['stub: ' + s for s in stubs],
         wall_s=round(wall, 2), violations=violations)
-    os.makedirs(os.path.join(HOME, 'evidence'), exist_ok=True)
-    with open(os.path.join(HOME, 'evidence', prop + '.json'), 'w') as f:
+    os.makedirs(os.path.join(OUT, 'evidence'), exist_ok=True)
+    with open(os.path.join(OUT, 'evidence', prop + '.json'), 'w') as f:
         json.dump(ev, f, indent=1, default=repr)
     print('%s tier=%s obligations=%d discharged=%d inconclusive=%d violations=%d harness_errors=%d wall=%.1fs'
           % (prop, tier, len(obs), discharged, inconclusive, violations, len(harness_errors), wall))
